@@ -522,12 +522,8 @@ func init() {
 func init() {
 	nop := func(fr *frame, args []value) value { return nil }
 	for _, n := range []string{
-		"(*sync.RWMutex).Lock", "(*sync.RWMutex).Unlock", "(*sync.RWMutex).RLock", "(*sync.RWMutex).RUnlock",
-		"(*sync.Mutex).Lock", "(*sync.Mutex).Unlock",
-		"(*sync.WaitGroup).Add", "(*sync.WaitGroup).Done", "(*sync.WaitGroup).Wait",
 		"k8s.io/apimachinery/pkg/util/runtime.HandleError",
 		"k8s.io/apimachinery/pkg/util/runtime.HandleCrash",
-		"time.Sleep",
 		"runtime.SetFinalizer", "runtime.KeepAlive",
 	} {
 		externals[n] = nop
@@ -552,14 +548,15 @@ func init() {
 		}
 		return out
 	}
-	externals["(*sync.Mutex).TryLock"] = func(fr *frame, args []value) value { return true }
 	externals["(*sync.Once).Do"] = func(fr *frame, args []value) value {
 		o := args[0].(*value)
 		st := (*o).(structure)
 		// field 0 is "done" (atomic.Uint32 / uint32 depending on Go version)
 		if markOnce(&st[0]) {
 			call(fr.i, fr, token.NoPos, args[1], nil)
+			ex(fr).release(args[0], 'o')
 		}
+		ex(fr).acquire(args[0], 'o')
 		return nil
 	}
 	// RawExtension.DeepCopyInto copies Raw byte-wise; JSON tokens are immutable.
@@ -583,14 +580,6 @@ func init() {
 		// fixed instant; harnesses that care inject their own clock
 		return timeValue(time.Unix(1700000000, 0).UTC())
 	}
-	externals["time.NewTicker"] = func(fr *frame, args []value) value {
-		t := namedType(fr.i.prog, "time", "Ticker")
-		st := zero(t).(structure)
-		st[0] = make(chan value, 1) // never fires
-		return mkPtr(st)
-	}
-	externals["(*time.Ticker).Stop"] = func(fr *frame, args []value) value { return nil }
-	externals["(*time.Ticker).Reset"] = func(fr *frame, args []value) value { return nil }
 	externals["math.Ceil"] = func(fr *frame, args []value) value { return math.Ceil(args[0].(float64)) }
 	externals["math.Floor"] = func(fr *frame, args []value) value { return math.Floor(args[0].(float64)) }
 	externals["time.Parse"] = func(fr *frame, args []value) value {
